@@ -57,7 +57,9 @@ func checkC08(c caseC08) (sig, msg string) {
 	if c.Delivery == "contiguous" && !c.Together {
 		sr.Steps = nil // deliver as much as each Read asks for, then the failure
 	}
-	got := readScripted(sr, len(c.Frame), func() interface{} { return vf.Failure{Property: "C08", Kind: "hang", Case: mustJSON(c), Signature: "hang"} })
+	got := readScripted(sr, len(c.Frame), func() interface{} {
+		return vf.Failure{Property: "C08", Kind: "hang", Case: mustJSON(c), Signature: "hang"}
+	})
 	desc := fmt.Sprintf("frame %s cut after %d of %d bytes, %s %s, %s delivery", hx(c.Frame), c.Cut, len(c.Frame), c.Failure, map[bool]string{true: "together with the last bytes", false: "on the next read"}[c.Together], c.Delivery)
 	if got.Panic != nil {
 		return "panic", fmt.Sprintf("%s: panic %v", desc, got.Panic.Value)
